@@ -15,7 +15,7 @@ Functions modelled (line numbers of src/pyramid/urldispatch.py unless said other
 * `fmtScan`                    `gen % newdict` — Python's `%`-formatting of a `str` with a mapping, for the directives
                                `_compile_route` can emit (`%%`, `%(name)s`); anything else is `Err.format`              (225)
 * `generate`                   `route.generate(kw)` = `fmtScan (newDict kw) (genTemplate toks)`                          (197-226)
-* `joinElements`, `routeSuffix`, `routePath`, `routeUrl`
+* `joinElements`, `joinMemo`, `routeSuffix`, `routePath`, `routeUrl`
                                `_join_elements`, `route_url`, `route_path` of src/pyramid/url.py (261-272, 302-303, 890-893);
                                the query string, the fragment and scheme+authority are *parameters* (they are C17's)
 * `targetPath`                 what a client/server take as the path of a request target: up to the first `?` or `#`
@@ -247,10 +247,29 @@ def routePath (script : Text) (toks : List Tok) (elems : List Atom) (kw : Kw) (q
 def routeUrl (origin script : Text) (toks : List Tok) (elems : List Atom) (kw : Kw) (qs frag : Text) : Except Err Text :=
   assemble (origin ++ quotedScript script) toks elems kw qs frag
 
-/-! ### the element cache (`@lru_cache(1000)` on `_join_elements`) -/
+/-! ### the element cache (`_join_elements` → `@lru_cache(1000) _join_text_elements`, url.py) -/
 
-/-- what `lru_cache` compares: Python's `==`/`hash` on the elements.  `True == 1` and `False == 0` (and `1.0 == 1`:
-floats whose `str()` is an integer followed by `.0`, not modelled); a `str` never equals a `bytes`. -/
+/-- `_join_elements(elements)` without any cache: every element quoted on its own, joined with `/` -/
+def joinElements (elems : List Atom) : Except Err Text :=
+  match qElems elems with
+  | .error e => .error e
+  | .ok ts => .ok (joinWith '/' ts)
+
+/-- the cache key of one element since 9c714c3: `s if s.__class__ in (str, bytes) else str(s)` — a `str` or a
+`bytes` object (which never compare equal to each other) -/
+inductive TKey where
+  | text (t : Text)
+  | bytes (b : Bytes)
+deriving Repr, DecidableEq
+
+def atomTKey : Atom → TKey
+  | .str t => .text t
+  | .bytes b => .bytes b
+  | .int i => .text (intText i)
+  | .other s => .text s
+
+/-- the cache key of one element BEFORE 9c714c3 (kept for the regression fact): the object itself, compared with
+Python's `==`/`hash` — `True == 1`, `False == 0`, and a float whose `str()` is `n.0` equals the int `n` -/
 inductive PyKey where
   | text (t : Text)
   | bytes (b : Bytes)
@@ -258,22 +277,36 @@ inductive PyKey where
   | opaque (s : Text)
 deriving Repr, DecidableEq
 
-def atomKey : Atom → PyKey
+def oldAtomKey : Atom → PyKey
   | .str t => .text t
   | .bytes b => .bytes b
   | .int i => .num i
-  | .other s => if s = "True".toList then .num 1 else if s = "False".toList then .num 0 else .opaque s
+  | .other s =>
+    if s = "True".toList then .num 1 else if s = "False".toList then .num 0
+    else if s = "1.0".toList then .num 1 else if s = "0.0".toList then .num 0 else .opaque s
 
-abbrev ElemCache := List (List PyKey × Text)
-
-/-- `_join_elements(elements)` behind its `lru_cache` (no eviction; a raising call is not cached) -/
-def joinElementsMemo (cache : ElemCache) (elems : List Atom) : Except Err Text × ElemCache :=
-  match cache.lookup (elems.map atomKey) with
+/-- an `lru_cache` in front of the joiner, keyed by `key` applied to every element (no eviction; a raising call is
+not cached) -/
+def joinMemo {κ : Type} [DecidableEq κ] (key : Atom → κ) (cache : List (List κ × Text)) (elems : List Atom) :
+    Except Err Text × List (List κ × Text) :=
+  match cache.lookup (elems.map key) with
   | some t => (.ok t, cache)
   | none =>
-    match qElems elems with
+    match joinElements elems with
     | .error e => (.error e, cache)
-    | .ok ts => (.ok (joinWith '/' ts), (elems.map atomKey, joinWith '/' ts) :: cache)
+    | .ok t => (.ok t, (elems.map key, t) :: cache)
+
+/-- the cache after a history of element tuples that reached `_join_elements` (in any `route_*`/`resource_*` call) -/
+def cacheAfterCalls {κ : Type} [DecidableEq κ] (key : Atom → κ) :
+    List (List κ × Text) → List (List Atom) → List (List κ × Text)
+  | c, [] => c
+  | c, h :: hs => cacheAfterCalls key (joinMemo key c h).2 hs
+
+abbrev ElemCache := List (List TKey × Text)
+
+/-- `_join_elements` as it is now -/
+def joinElementsMemo (cache : ElemCache) (elems : List Atom) : Except Err Text × ElemCache :=
+  joinMemo atomTKey cache elems
 
 /-- the suffix of `route_url` with the cache in the state -/
 def routeSuffixMemo (cache : ElemCache) (path : Text) (elems : List Atom) : Except Err Text × ElemCache :=
@@ -283,13 +316,16 @@ def routeSuffixMemo (cache : ElemCache) (path : Text) (elems : List Atom) : Exce
     | (.error e, c) => (.error e, c)
     | (.ok j, c) => (.ok (if endsWithSlash path then j else '/' :: j), c)
 
+/-- the element tuples of a history of `route_path('r', *elems, **kw)` calls that reach `_join_elements`: the call
+must get past `route.generate(kw)` and have elements -/
+def reaching (toks : List Tok) (kw : Kw) (history : List (List Atom)) : List (List Atom) :=
+  match generate toks kw with
+  | .error _ => []
+  | .ok _ => history.filter (· ≠ [])
+
 /-- the cache after a history of `route_path('r', *elems, **kw)` calls on one route with one `kw` -/
-def cacheAfter (toks : List Tok) (kw : Kw) : ElemCache → List (List Atom) → ElemCache
-  | c, [] => c
-  | c, h :: hs =>
-    match generate toks kw with
-    | .error _ => cacheAfter toks kw c hs
-    | .ok path => cacheAfter toks kw (routeSuffixMemo c path h).2 hs
+def cacheAfter (toks : List Tok) (kw : Kw) (cache : ElemCache) (history : List (List Atom)) : ElemCache :=
+  cacheAfterCalls atomTKey cache (reaching toks kw history)
 
 /-- `route_path` / `route_url` with the cache in the state -/
 def assembleMemo (cache : ElemCache) (appUrl : Text) (toks : List Tok) (elems : List Atom) (kw : Kw) (qs frag : Text) :
